@@ -379,6 +379,9 @@ class Calls(SpecRT, Strings, Loops, AnyVals, AbsSeqs):
             return self.ex.ok(SBuiltin('dict.' + attr, bound=v), st)
         if v.cname in ('actionlog', 'rounds') and attr == 'append':
             return self.ex.ok(SBuiltin(v.cname + '.append', bound=v), st)
+        hk = self.ex.hooks.get('pseudo_getattr')
+        if hk:
+            return hk(v, attr, st, fr)
         return None
 
     def val_binop(self, on, a, b, st, fr, node=None):
